@@ -1634,10 +1634,14 @@ def aten_cat(tensors: Sequence[TTensor], dim: int = 0) -> TTensor:
         if tensor.shape == (0,):
             continue
         filtered_tensors.append(tensor)
-    assert filtered_tensors, "aten::cat received all None or empty tensors"
+    if not filtered_tensors:
+        # every input is a legacy empty tensor of shape (0,): so is the result
+        empty_tensors = [tensor for tensor in tensors if tensor is not None]
+        assert empty_tensors, "aten::cat received only None tensors"
+        return op.Identity(empty_tensors[0])
     if len(filtered_tensors) == 1:
         return op.Identity(filtered_tensors[0])
-    return op.Concat(*tensors, axis=dim)
+    return op.Concat(*filtered_tensors, axis=dim)
 
 
 def aten_ccol_indices(self: TensorType) -> TensorType:
